@@ -309,7 +309,9 @@ class Engine:
 
         def V(x):
             x = x.strip()
-            x = f.aliases.get(x, x)
+            hops = 0
+            while x in f.aliases and hops < 64:
+                x = f.aliases[x]; hops += 1
             if x not in env:
                 raise Unsupported('use of undefined value %s in %s' % (x, f.name))
             return env[x]
